@@ -113,7 +113,9 @@ pub struct Iv {
 pub fn pass_tolerance(ck: CK, precision: u32, sum_abs_x: f64, sum_abs_wx: f64) -> f64 {
     match ck {
         CK::U8 | CK::U16 => 0.5 + sum_abs_x * (0.5f64).powi(precision as i32 + 1) + 1e-6,
-        CK::I32 => 0.5 + 1e-6 + sum_abs_wx * (0.5f64).powi(46),
+        // the absolute term: a weight is evaluated with an absolute error of ~1e-16 even when it is
+        // small (polynomial cancellation), and i32 samples are up to 2^31
+        CK::I32 => 0.5 + 1e-6 + sum_abs_wx * (0.5f64).powi(46) + sum_abs_x * (0.5f64).powi(48),
         CK::F32 => 4.0 * (0.5f64).powi(24) * sum_abs_wx + (0.5f64).powi(48) * sum_abs_x + 1e-44,
     }
 }
